@@ -368,6 +368,26 @@ CONSUMERS = ["GeckoUnhandledProtocolHandler", "GeckoPacketProtocolHandler", "Gec
 RUN_STEPS = [6]
 
 
+def two_connections(sx):
+    """a second connection in the same process (another spa, the locator, a reconnect): what arrives on one is never
+    visible to the consumers of the other"""
+    from geckolib.driver import GeckoAsyncUdpProtocol
+    from sx.vloop import VLoop, FakeDatagramTransport
+    loop = VLoop()
+    a = GeckoAsyncUdpProtocol(None, DEST)
+    b = GeckoAsyncUdpProtocol(None, DEST)
+    for p_ in (a, b):
+        p_.connection_made(FakeDatagramTransport(loop, p_, lambda tr, d, ad: None))
+    n = 1 + sx.choice("datagrams", 3)
+    for i in range(n):
+        a.datagram_received(b"RFERR" + sx.bytes_(f"d{i}", 1), PARMS)
+    sx.check(a.queue.qsize() == n and b.queue.qsize() == 0, "adr.connections-have-their-own-queues",
+             lambda: f"{a.queue.qsize()} / {b.queue.qsize()}")
+    b.queue.mark() if b.queue.qsize() else None
+    sx.check(not a.queue.is_marked, "adr.connections-have-their-own-marks")
+    loop.cancel_all()
+
+
 def registration(sx):
     loop, spa, proto, consumers, events = connect_world(sx)
     sx.check(sorted(consumers) == sorted(CONSUMERS), "seg.connect-registers-the-expected-consumers", lambda: str(sorted(consumers)))
@@ -378,6 +398,7 @@ def units(tier):
     global HEAD_LENS
     HEAD_LENS = [0, 5, 6, 9, 24] if tier == "quick" else [0, 1, 4, 5, 6, 7, 8, 9, 13, 15, 16, 24]
     yield Unit("registration", registration)
+    yield Unit("two-connections", two_connections)
     for c in CONSUMERS[1:]:
         yield Unit(f"segment.{c[5:-15]}", consumer_segment(c), max_paths=50000)
     yield Unit("segment.waiter", waiter_segment, max_paths=50000)
